@@ -496,8 +496,30 @@ def check_large_pool(case):
             o = Obj()
             created.append(o)
             return o
-        pool = P.ObjectPool(mk, after_remove=removed.append, max_size=size, idle_timeout=idle)
         desc = "pool of %d objects (idle_timeout %r), %s" % (size, idle, how)
+
+        class OneThreadLock:
+            """the pool's lock when a single thread uses it: acquiring it while it is held can never succeed"""
+            held = False
+
+            def acquire(self, blocking=True, timeout=-1):
+                if self.held:
+                    if not blocking:
+                        return False
+                    raise Violation(["large-pool", "deadlock"], "the pool acquires its lock while it holds it - with threading.Lock this blocks for ever: %s" % desc)
+                self.held = True
+                return True
+
+            def release(self):
+                if not self.held:
+                    raise RuntimeError("release unlocked lock")
+                self.held = False
+
+            __enter__ = acquire
+
+            def __exit__(self, *a):
+                self.release()
+        pool = P.ObjectPool(mk, after_remove=removed.append, max_size=size, idle_timeout=idle, lock_generator=OneThreadLock)
         try:
             objs = [pool.get() for _ in range(size)]
             half = size // 2
@@ -516,6 +538,8 @@ def check_large_pool(case):
             pool.release(o)
             for _ in range(5):
                 pool.release(pool.get())
+        except Violation:
+            raise
         except Exception as e:  # noqa: BLE001
             raise Violation(["large-pool", "raises", type(e).__name__], "%r escaped: %s" % (e, desc))
         free_ids = {id(x) for x in pool._free_objs}
